@@ -456,3 +456,74 @@ fn verif_native_program_layout() {
     assert!(rejected > 0 && rejected < evaluated, "degenerate enumeration");
     verif_out(&format!("VERIF-NATIVE name={} evaluated={} distinct={}", name, evaluated, rejected));
 }
+
+/// C01 layout clause ("re-laying out the text never changes the image"): 4 programs x every subset of 7 layout transformations
+/// (mnemonics / registers / directives in upper case; commas replaced by blanks; a colon after every label definition; a
+/// comment appended to every line; blank and comment-only lines in between; leading tabs; CRLF line ends): the image is the
+/// image of the original text
+#[test]
+fn verif_native_layout_invariance() {
+    let name = "verif_native_layout_invariance";
+    let handle = std::thread::spawn(move || {
+        let _ = verif_catch(|| crate::features::init("stack".parse().unwrap()));
+        // each line: (label or "", rest); the label of a line is defined there
+        let programs: [&[(&str, &str)]; 4] = [
+            &[("", ".orig x3100"), ("start", "add r0, r0, #1"), ("", "brp start"), ("", "ld r1, data"), ("", "halt"), ("data", ".fill xBEEF")],
+            &[("", "lea r0, msg"), ("", "puts"), ("", "jsr sub"), ("", "halt"), ("sub", "ldr r2, r0, #-1"), ("", "ret"), ("msg", ".stringz \"a, b: c ; d\""), ("buf", ".blkw #2")],
+            &[("top", "push r1"), ("", "call top"), ("", "pop r2"), ("", "rets"), ("", "trap x25"), ("w", ".fill #-2")],
+            &[("", "and r3, r3, #0"), ("", ".break"), ("a", "not r3, r3"), ("b", "sti r3, a"), ("", "str r3, r3, x1F"), ("", "brnzp b")],
+        ];
+        let render = |prog: &[(&str, &str)], t: usize| -> String {
+            let mut out = String::new();
+            for (i, (label, rest)) in prog.iter().enumerate() {
+                let mut rest = rest.to_string();
+                let in_string = rest.contains('"');
+                if t & 1 != 0 {
+                    // upper-case the KEYWORDS only (mnemonics, registers, directives): label names are case-sensitive, literals stay
+                    let keywords = ["add", "and", "brp", "brnzp", "ld", "ldr", "lea", "puts", "jsr", "halt", "ret", "not", "sti", "str", "trap", "push", "pop", "call", "rets",
+                        "r0", "r1", "r2", "r3", ".orig", ".fill", ".stringz", ".blkw", ".break"];
+                    let mut outw = String::new();
+                    let mut word = String::new();
+                    let mut quoted = false;
+                    for ch in rest.chars().chain(std::iter::once(' ')) {
+                        if ch == '"' { quoted = !quoted; }
+                        if !quoted && (ch.is_alphanumeric() || ch == '.' || ch == '_') { word.push(ch); continue; }
+                        if keywords.contains(&word.as_str()) { outw.push_str(&word.to_uppercase()); } else { outw.push_str(&word); }
+                        word.clear();
+                        outw.push(ch);
+                    }
+                    outw.pop();
+                    rest = outw;
+                }
+                if t & 2 != 0 && !in_string { rest = rest.replace(",", " "); }
+                let mut line = String::new();
+                if t & 32 != 0 { line.push('\t'); }
+                if !label.is_empty() { line.push_str(label); if t & 4 != 0 { line.push(':'); } line.push(' '); }
+                line.push_str(&rest);
+                if t & 8 != 0 { line.push_str(&format!(" ; note {} é", i)); }
+                out.push_str(&line);
+                out.push_str(if t & 64 != 0 { "\r\n" } else { "\n" });
+                if t & 16 != 0 { out.push_str(if t & 64 != 0 { "\r\n   ; just a comment\r\n" } else { "\n   ; just a comment\n" }); }
+            }
+            out
+        };
+        let mut evaluated = 0u64;
+        for prog in programs {
+            let base_src = render(prog, 0);
+            let base = match verif_catch(|| image_of(leak(&base_src))) { Ok(Ok(img)) => img, other => { verif_out(&format!("VERIF-COUNTEREXAMPLE name={} input={:?} detail=the plain layout does not assemble: {:?}", name, base_src, other.map(|r| r.is_ok()))); panic!("violation"); } };
+            for t in 1..128usize {
+                evaluated += 1;
+                let src = render(prog, t);
+                let got = verif_catch(|| image_of(leak(&src)));
+                match got {
+                    Err(m) => { verif_out(&format!("VERIF-COUNTEREXAMPLE name={} input={:?} detail=panic: {}", name, src, m)); panic!("violation"); }
+                    Ok(Err(())) => { verif_out(&format!("VERIF-COUNTEREXAMPLE name={} input={:?} detail=rejected, although it is only a re-layout of {:?}", name, src, base_src)); panic!("violation"); }
+                    Ok(Ok(img)) => if img != base { verif_out(&format!("VERIF-COUNTEREXAMPLE name={} input={:?} detail=image {:04x?} differs from the image {:04x?} of the plain layout", name, src, img, base)); panic!("violation"); }
+                }
+            }
+        }
+        evaluated
+    });
+    let evaluated = match handle.join() { Ok(x) => x, Err(_) => panic!("violation") };
+    verif_out(&format!("VERIF-NATIVE name={} evaluated={} distinct={}", name, evaluated, evaluated));
+}
